@@ -5,6 +5,8 @@ import (
 	"errors"
 	"fmt"
 	"io"
+	"os"
+	"runtime"
 	"sort"
 	"strings"
 	"sync/atomic"
@@ -68,7 +70,7 @@ func c23Run(c *fw.Ctx, only string) {
 	}, false)
 	g.MustRun("update-ref", "refs/heads/main", ids[1])
 	g.MustRun("reset", "-q", "--hard")
-	g.MustRun("repack", "-a", "-d", "-q")
+	g.C("pack.writeReverseIndex=true").MustRun("repack", "-a", "-d", "-q") // with a .rev file: pack, idx and rev are three members of the descriptor pool
 	looseID := g.MustRunIn([]byte("loose content\n"), "hash-object", "-w", "--stdin").S()
 	store := map[string]fw.ObjInfo{}
 	for _, o := range g.CatFileAll() {
@@ -94,14 +96,16 @@ func c23Run(c *fw.Ctx, only string) {
 		}
 		newPack = buf.Bytes()
 	}
-	idOf := map[string]string{"packed": packedID, "loose": looseID, "new": newID, "absent": absentID, "commit": ids[1]}
+	oldID := g.MustRun("rev-parse", ids[0]+":a").S() // the other version of the file: one of the two is stored as a delta
+	idOf := map[string]string{"packed": packedID, "old": oldID, "loose": looseID, "new": newID, "absent": absentID, "commit": ids[1]}
 	base := mcfs.NewWorld()
 	c.Must(base.Import(dir+"/.git", "/wt/.git"), "import")
 	base.RemoveSetup("/wt/.git/hooks")
 
 	type harness struct {
 		readers [][]c23Op
-		writer  string // "", "loose", "repack"
+		writer  string // "", "loose", "repack", "pack(same instance)", "pack(second instance)"
+		c18     bool   // also part of C18's interleaved variant (visibility of the written object)
 	}
 	get := func(o string) c23Op { return c23Op{"get", o} }
 	hs := []harness{
@@ -113,8 +117,16 @@ func c23Run(c *fw.Ctx, only string) {
 		{readers: [][]c23Op{{get("absent")}, {get("packed")}}},
 		{readers: [][]c23Op{{get("new")}, {{"has", "new"}}}, writer: "loose"},
 		{readers: [][]c23Op{{get("packed")}, {get("loose")}}, writer: "loose"},
-		{readers: [][]c23Op{{{"has", "packed"}}}, writer: "pack(same instance)"},
-		{readers: [][]c23Op{{{"has", "new"}}, {get("loose")}}, writer: "pack(same instance)"},
+		{readers: [][]c23Op{{{"has", "packed"}}}, writer: "pack(same instance)", c18: true},
+		{readers: [][]c23Op{{{"has", "new"}}, {get("loose")}}, writer: "pack(same instance)", c18: true},
+		// a reader in the middle of a packed read while the instance opens a pack writer (which drops
+		// the instance's cached pack handles), re-indexes, or soft-closes its descriptors
+		{readers: [][]c23Op{{get("packed")}}, writer: "pack(same instance)"},
+		{readers: [][]c23Op{{get("packed")}, {{"reindex", ""}}}},
+		{readers: [][]c23Op{{get("packed")}, {{"closeidle", ""}}}},
+		{readers: [][]c23Op{{get("old")}, {{"size", "packed"}}}},
+		{readers: [][]c23Op{{{"size", "old"}, {"has", "new"}}}, writer: "pack(same instance)", c18: true},
+		{readers: [][]c23Op{{get("packed")}, {{"has", "new"}}}, writer: "pack(second instance)"},
 		{readers: [][]c23Op{{get("packed")}}, writer: "repack"},
 		{readers: [][]c23Op{{get("loose"), get("packed")}}, writer: "repack"},
 	}
@@ -136,17 +148,33 @@ func c23Run(c *fw.Ctx, only string) {
 	}
 	var jobs []job
 	for _, h := range hs {
-		if only != "" && h.writer != only {
+		if only != "" && (h.writer != only || !h.c18) {
 			continue
 		}
 		for _, cf := range cfgs {
 			jobs = append(jobs, job{h, cf})
 		}
 	}
+	if f := os.Getenv("VERIF_C23_FILTER"); f != "" { // development aid: only the harnesses whose writer/readers contain f
+		var keep []job
+		for _, j := range jobs {
+			if strings.Contains(fmt.Sprint(j.h.readers)+" writer="+j.h.writer, f) {
+				keep = append(keep, j)
+			}
+		}
+		jobs = keep
+	}
 	c.Bound("harnesses_x_configs", len(jobs))
-	deadline := time.Now().Add(time.Duration(c.Pick(80, 1100)) * time.Second)
+	budget := time.Duration(c.Pick(80, 1100)) * time.Second
 	if only != "" {
-		deadline = time.Now().Add(time.Duration(c.Pick(45, 300)) * time.Second)
+		budget = time.Duration(c.Pick(45, 300)) * time.Second
+	}
+	deadline := time.Now().Add(budget)
+	// every harness gets a fair share of the budget (1.5x over-subscribed: most finish early), so that a
+	// slow machine cuts the tails of all explorations rather than dropping the harnesses that start last
+	slice := budget * time.Duration(runtime.NumCPU()) * 3 / 2 / time.Duration(len(jobs)+1)
+	if slice < 10*time.Second {
+		slice = 10 * time.Second
 	}
 	var totalExec, totalPoints atomic.Int64
 	c.ParDo(len(jobs), 0, func(ji int) {
@@ -201,6 +229,18 @@ func c23Run(c *fw.Ctx, only string) {
 						// one atomic step: the pack writer talks to a goroutine of its own through atomics,
 						// so the number of scheduling points inside it depends on real timing
 						vsched.Yield("pack write on the shared instance")
+						vsched.Atomic(func() {
+							pw, err := st2.PackfileWriter()
+							if err == nil {
+								_, err = pw.Write(newPack)
+								if cerr := pw.Close(); err == nil {
+									err = cerr
+								}
+							}
+							writerErr = err
+						})
+					case "pack(second instance)":
+						vsched.Yield("pack write by another instance")
 						vsched.Atomic(func() {
 							pw, err := st2.PackfileWriter()
 							if err == nil {
@@ -266,6 +306,9 @@ func c23Run(c *fw.Ctx, only string) {
 							case "new":
 								// acceptable unless the write had returned before this read was called
 								if wr := writeReturned.Load(); (j.h.writer == "loose" || j.h.writer == "pack(same instance)") && wr != 0 && wr < e.call {
+									// (a pack added by ANOTHER instance is not looked for again once this instance has
+									// loaded its pack list: the listed no-rescan limitation, D11; that harness checks
+									// that reads of the objects that were there before stay correct)
 									verdict = fmt.Sprintf("%s reports not-found although the write that stored the object had already returned", e.op)
 								}
 							default:
@@ -281,7 +324,11 @@ func c23Run(c *fw.Ctx, only string) {
 				return verdict
 			}
 		}
-		st := vsched.Explore(vsched.Config{MaxPreemptions: maxPre, Deadline: deadline, Horizon: 50000}, body, func(f vsched.Failure) bool {
+		jd := time.Now().Add(slice)
+		if jd.After(deadline) {
+			jd = deadline
+		}
+		st := vsched.Explore(vsched.Config{MaxPreemptions: maxPre, Deadline: jd, Horizon: 50000}, body, func(f vsched.Failure) bool {
 			k := f.What
 			k = reHashPath.ReplaceAllString(k, "<h>")
 			wr := "no writer"
@@ -337,6 +384,26 @@ func c23Do(st *filesystem.Storage, op c23Op, idOf map[string]string, store map[s
 		return "ok"
 	case "has":
 		if err := st.HasEncodedObject(plumbing.NewHash(idOf[op.obj])); err != nil {
+			return errs(err)
+		}
+		return "ok"
+	case "size":
+		id := idOf[op.obj]
+		n, err := st.EncodedObjectSize(plumbing.NewHash(id))
+		if err != nil {
+			return errs(err)
+		}
+		if int(n) != store[id].Size {
+			return fmt.Sprintf("error(wrong size %d, stored %d)", n, store[id].Size)
+		}
+		return "ok"
+	case "reindex":
+		if err := st.Reindex(); err != nil {
+			return errs(err)
+		}
+		return "ok"
+	case "closeidle":
+		if err := st.CloseIdleDescriptors(); err != nil {
 			return errs(err)
 		}
 		return "ok"
